@@ -142,22 +142,19 @@ let run (path : string) =
        let benv = { Gauge.be_farm = farms; be_recv = recvs; be_ext = xenvs; be_lend = lenvs } in
        let o = Gauge.Begin (now, benv) in
        if not (Gauge.op_wf o) then cmpf "env.recv_nonneg" "true" "false";
-       (* known-finding classes met by this step (on the state it starts from) *)
-       (* the class predicates re-run the epochs; skip them where they are false by definition: class 2 needs a
-          failing fee transfer, classes 3 / 4 need a program *)
-       let some_recv_fails = (try L.exists2 (fun (g : Gauge.gauge) r -> g.Gauge.g_swap && (match r with Base.Ok _ -> false | _ -> true)) m.Gauge.r_gauges recvs with Invalid_argument _ -> true) in
-       let k2 = some_recv_fails && Gauge.kf2_begin now benv m in
-       let k3 = m.Gauge.r_exts <> [] && Gauge.kf3_begin now benv m in
+       (* known-finding class met by this step (on the state it starts from); the class predicate re-runs the
+          hook: skip it where it is false by definition (class 4 needs a lend program) *)
        let k4 = L.exists (fun (x : Gauge.ext) -> BinInt.Z.eqb x.Gauge.x_kind (zi 2)) m.Gauge.r_exts && Gauge.kf4_begin now benv m in
-       if !dirty = "none" then (if k2 then dirty := "kf_C19_2" else if k3 then dirty := "kf_C19_3" else if k4 then dirty := "kf_C19_4");
-       if k2 then bump "kf:C19_2:met"; if k3 then bump "kf:C19_3:met"; if k4 then bump "kf:C19_4:met";
-       (* the input-delimited sufficient condition of c19_program_safe, per program that is due *)
+       if !dirty = "none" && k4 then dirty := "kf_C19_4";
+       if k4 then bump "kf:C19_4:met";
+       (* the hypothesis of c19_program_safe / op_wf on the recorded populations, per program that is due *)
        L.iteri (fun i (x : Gauge.ext) ->
            if x.Gauge.x_active && BinInt.Z.ltb x.Gauge.x_next now && BinInt.Z.ltb x.Gauge.x_kind (zi 2) then begin
              let e = L.nth xenvs i in
-             let safe = Gauge.ext_safe e x in
-             bump (if safe then "program:safe-condition" else "program:outside-safe-condition");
-             if safe && Gauge.kf_C19_3 now e x then cmpf "program.safe_implies_no_overdraw" "true" "false"
+             bump (if Gauge.xenv_wf e then "program:population-consistent" else "program:population-INCONSISTENT");
+             if not (Gauge.xenv_wf e) then cmpf "env.population_consistent" "true" "false";
+             bump (if BinInt.Z.ltb (zs "250000000000000000") (BinInt.Z.mul x.Gauge.x_avail (zi (L.length e.Gauge.xe_pop)))
+                   then "program:amount-above-former-safe-bound" else "program:amount-below-former-safe-bound")
            end) m.Gauge.r_exts;
        (* the implementation's own share calculation for the allocation that is due: diff + share predicate *)
        Hashtbl.iter (fun i toks ->
@@ -236,7 +233,7 @@ let run (path : string) =
                | Some (x : Gauge.ext) when BinInt.Z.eqb x.Gauge.x_denom dz -> zadd acc (zsub x.Gauge.x_avail x'.Gauge.x_avail)
                | _ -> acc) z0 (L.rev !xs) in
            if not (Gauge.holds_C19_paid paid (zadd booked_g booked_x) recvd b b') then
-             pf "paid_le_booked" (if k2 then "kf_C19_2" else !dirty)
+             pf "paid_le_booked" !dirty
                (Printf.sprintf "denom=%d_paid=%s_booked=%s_recv=%s_bal=%s->%s" d (sz paid) (sz (zadd booked_g booked_x)) (sz recvd) (sz b) (sz b'))) (L.rev !bs)
      | o :: _ -> bump ("op:unknown:" ^ o));
     diff_state ();
